@@ -1,5 +1,6 @@
 (* C02 — constraints hold for every parameter set the objective is evaluated on.  Statements only. *)
 Require Import Base StopRun Converter ConverterFacts CoreOpt Tracker Algos Driver DriverFacts CoreFacts AlgoFacts AlgoLift.
+Require Import Pop PopFacts.
 
 (* the rejection loops' only Ok exit is a feasible candidate — for every tape of draws *)
 Theorem C02_move_random_feasible : forall sp cons fuel t c p t' c',
@@ -45,3 +46,24 @@ Example C02_nonvacuous :
   let cons := fun v : values => match v with [a] => Z.even a | _ => false end in
   move_random sp cons 10 [DZ 1; DZ 3; DZ 2] 0 = Ok ([2], [], 3).
 Proof. vm_compute. reflexivity. Qed.
+
+(* ---------- the iterate step of the population optimizers (theories/Pop.v; float vectors are oracle tape entries) ----------
+   whatever the draws and the (NaN-free) oracle vectors: the emitted position lies in the box and satisfies the constraints,
+   and at least one constraint evaluation was made *)
+Theorem C02_pso_iterate : forall sp cons fuel rrp, dims_ok sp -> forall cur t p t' c, length cur = length sp -> nan_free t ->
+  pso_iterate sp cons fuel rrp cur t = Ok (p, t', c) -> emit_ok sp cons p /\ is_suffix t' t /\ 0 < c.
+Proof. exact pso_iterate_ok. Qed.
+Print Assumptions C02_pso_iterate.
+Theorem C02_spiral_iterate : forall sp cons fuel rrp, dims_ok sp -> forall t p t' c, nan_free t ->
+  spiral_iterate sp cons fuel rrp t = Ok (p, t', c) -> emit_ok sp cons p /\ is_suffix t' t.
+Proof. exact spiral_iterate_ok. Qed.
+Print Assumptions C02_spiral_iterate.
+Theorem C02_de_iterate : forall sp cons fuel, dims_ok sp -> forall pop target t p t' c, length target = length sp -> nan_free t ->
+  de_iterate sp cons fuel pop target t = Ok (p, t', c) -> emit_ok sp cons p /\ is_suffix t' t /\ 0 < c.
+Proof. exact de_iterate_ok. Qed.
+Print Assumptions C02_de_iterate.
+(* recombination of in-box parents (evolution strategy, genetic algorithm), then the constraint test / move_climb fallback *)
+Theorem C02_cross_or_climb : forall sp cons fuel, dims_ok sp -> forall parents t p t' c, Forall (in_box sp) parents -> nan_free t ->
+  cross_or_climb sp cons fuel parents t = Ok (p, t', c) -> emit_ok sp cons p /\ is_suffix t' t /\ 0 < c.
+Proof. exact cross_or_climb_ok. Qed.
+Print Assumptions C02_cross_or_climb.
